@@ -4,6 +4,11 @@
 #include <sys/wait.h>
 #include <unistd.h>
 #include <signal.h>
+#ifdef MC_REPO_SRC
+# define MC_REPO_SRC_STR MC_REPO_SRC
+#else
+# define MC_REPO_SRC_STR "/repo/src/"
+#endif
 
 static const int LEVELS[4] = { 0, 1, 3, 1 }, SILENT[4] = { 0, 0, 0, 1 };     /* the fourth cell: level 1 with libast_set_silent(TRUE) */
 #define NCELL 4
@@ -76,6 +81,7 @@ static void n_case(uint64_t idx, void *ctx)
     int st = 0; waitpid(pid, &st, 0);
     char site[96]; snprintf(site, sizeof site, "%s#%s", c->func, c->param);
     if (strstr(err, "runtime error:")) { char *p = strstr(err, "runtime error:"); char line[300]; snprintf(line, sizeof line, "%.*s", (int) strcspn(p, "\n"), p); FAIL(site, "ubsan", shape, "%s", line); }
+    if (strstr(err, "WARNING: MemorySanitizer")) { char *p = strstr(err, "WARNING: MemorySanitizer"); char line[300]; snprintf(line, sizeof line, "%.*s", (int) strcspn(p, "\n"), p); char *fr = strstr(p, MC_REPO_SRC_STR); FAIL(site, "msan:use-of-uninitialized-value", shape, "%s (%.60s)", line, fr ? fr + strlen(MC_REPO_SRC_STR) : "outside the library sources"); }
     if (WIFSIGNALED(st)) FAIL(site, "crash:signal", shape, "the call ended with signal %d instead of failing soft", WTERMSIG(st));
     else if (WIFEXITED(st) && WEXITSTATUS(st) == 255) {
         if (level == 0) FAIL(site, "model:fatal-at-level-0", shape, "the process was ended at runtime debug level 0");
